@@ -3,15 +3,15 @@
 #define VHM_SPEC_H
 /* ------------------------------------------------------------------ specification functions (per-bucket abstract map) */
 static kkey_t item_key(kcell_t kc, vcell_t vc) {
-#ifdef XV_NT
-  return vc->data.first;
+#ifdef XV_KEYNODE
+  return NODE_KEY(vc);
 #else
   return kc;
 #endif
 }
 static vval_t item_val(vcell_t vc) {
-#ifdef XV_NT
-  return vc->data.second;
+#ifdef XV_NODE
+  return NODE_VAL(vc);
 #else
   return vc;
 #endif
@@ -63,11 +63,16 @@ static _Bool free_list_ok(int b) {
 }
 _Bool spec_ignore_retired;      /* set where "no linked node is retired" is asserted separately (vhm.erase.retires_only_removed) */
 static _Bool cell_ok(kcell_t kc, vcell_t vc) {     /* storage invariant of one occupied item */
-#ifdef XV_NT
-  int i = node_index(vc); return i < NN && (spec_ignore_retired || node_retired[i] == 0) && kc == XV_HASH(vc->data.first);
-#else
-  return 1;
+#ifdef XV_NODE
+  int i = node_index(vc); if (!(i < NN && (spec_ignore_retired || node_retired[i] == 0))) return 0;       /* a live node of the map */
 #endif
+#ifdef XV_KEYNODE
+  if (kc != XV_HASH(NODE_KEY(vc))) return 0;                                                              /* the key cell holds the hash of the node's key */
+#endif
+#ifdef XV_MANAGED
+  { int u = uobj_index(item_val(vc)); if (!(u < NN && (spec_ignore_retired || uobj_retired[u] == 0))) return 0; }   /* a live, non-null Value object */
+#endif
+  return 1;
 }
 /* Inv_B: quiescent bucket */
 static _Bool inv_B(const bucket_t* B, int maxchain) {
@@ -84,8 +89,11 @@ static _Bool inv_B(const bucket_t* B, int maxchain) {
     if (!cell_ok(kc[a], vc[a])) return 0;
     for (int b = 0; b < NSLOT + XV_L + 1; ++b) if (b < a) {
       if (item_key(kc[a], vc[a]) == item_key(kc[b], vc[b])) return 0;
-#ifdef XV_NT
+#ifdef XV_NODE
       if (vc[a] == vc[b]) return 0;
+#endif
+#ifdef XV_MANAGED
+      if (item_val(vc[a]) == item_val(vc[b])) return 0;     /* the map owns (retires on erase) its Value objects: one object is stored once */
 #endif
     }
   }
